@@ -79,8 +79,9 @@ def run(ctx):
     for cohort in sorted({1, 2, n // 2, n}):
       if cohort < 1:
         continue
-      cfgs.append(('get', 'mem' if (n + cohort) % 2 else 'sql', n, cohort))
-  cfgs += [('stream', 'mem', 6, 2), ('stream', 'sql', 6, 3), ('stream', 'mem', 3, 1), ('stream', 'sql', 10, 4)]
+      # concrete datasets and derived views (subset of / slice of a larger dataset, subset over SQLite)
+      cfgs.append(('get', ('mem', 'sql', 'subset', 'sqlsub', 'slice')[len(cfgs) % 5], n, cohort))
+  cfgs += [('stream', 'mem', 6, 2), ('stream', 'slice', 6, 3), ('stream', 'subset', 3, 1), ('stream', 'sqlsub', 6, 3), ('stream', 'sql', 10, 4)]
   if not big:
     cfgs = cfgs[::2] + cfgs[-2:]
   per_cfg = (len(get_h) // 4) if big else 60
